@@ -35,9 +35,57 @@ def _rand_tensor(rng: random.Random, shape, dtype):
     return torch.tensor(vals, dtype=dtype).reshape(shape)
 
 
+LAYOUTS = ["P", "S", "E"]
+
+
+def relayout(t: torch.Tensor, lrng: random.Random, p: float = 0.45):
+    """Memory layouts of leaves.  Returns (tensor, tag): with probability 1 - p the tensor itself (tag ''), else a
+    tensor of the same shape / dtype that is NOT stored in contiguous row-major order:
+      'P'  permuted storage (x.permute(reversed dims).contiguous().permute(back): column-major, same logical values),
+      'S'  strided view with a storage offset into a larger buffer (every other element along the last dimension of
+           size >= 2: non-dense, same logical values),
+      'E'  expanded view (stride 0 along the first dimension of size >= 2: the logical values of that dimension are
+           those of its first index).
+    Called on tensors that do not require grad yet (the caller then makes them leaves).  ``lrng`` is a stream of its
+    own (exactly three draws per call), so that the structure of the generated program does not depend on layouts;
+    deterministic in the stream, so twin programs get the same layouts.  Tensors with < 2 elements are returned
+    unchanged (every layout of them is contiguous)."""
+    r, kind, off = lrng.random(), lrng.choice(["P", "P", "S", "S", "E"]), lrng.randrange(2)
+    big = [d for d in range(t.dim()) if t.shape[d] >= 2]
+    if r >= p or not big:
+        return t, ""
+    if kind == "P" and len(big) < 2:
+        kind = "S"
+    if kind == "P":
+        perm = list(range(t.dim()))[::-1]
+        u = t.permute(perm).contiguous().permute(perm)  # the reversal is its own inverse
+    elif kind == "S":
+        d = big[-1]
+        shape = list(t.shape)
+        shape[d] = 2 * shape[d] + 1
+        buf = torch.zeros(shape, dtype=t.dtype)
+        u = buf.narrow(d, off, shape[d] - 1).unflatten(d, (t.shape[d], 2)).select(d + 1, 0)
+        u.copy_(t)
+    else:
+        d = big[0]
+        u = t.narrow(d, 0, 1).clone().expand(t.shape)
+    assert u.shape == t.shape and not u.requires_grad and u.grad_fn is None
+    return u, "/" + kind
+
+
+def _layout_rng(spec: dict):
+    """Stream of the layout decisions of a program, or None when spec['layouts'] == 'contiguous'."""
+    if spec.get("layouts", "mixed") == "contiguous":
+        return None
+    return random.Random((spec["seed"] * 2654435761 + 40503) % (2**61 - 1))
+
+
 def build(spec: dict) -> Program:
-    """spec: {seed, n_leaves, n_ops, n_outputs, dtype:'float32'|'float64', multi_output:bool}"""
+    """spec: {seed, n_leaves, n_ops, n_outputs, dtype:'float32'|'float64', multi_output:bool, layouts: 'mixed'
+    (default: about 45% of the leaves with >= 2 elements are permuted / strided / expanded views, see ``relayout``)
+    | 'contiguous'}"""
     rng = random.Random(spec["seed"])
+    lrng = _layout_rng(spec)
     dtype = torch.float64 if spec.get("dtype", "float64") == "float64" else torch.float32
     n_leaves = spec.get("n_leaves", 3)
     n_ops = spec.get("n_ops", 6)
@@ -48,13 +96,14 @@ def build(spec: dict) -> Program:
     for i in range(n_leaves):
         shape = rng.choice(SHAPES)
         t = _rand_tensor(rng, shape, dtype)
+        t, tag = relayout(t, lrng) if lrng is not None else (t, "")
         # about one leaf in five does not require grad; the first always does
         rg = True if i == 0 else (rng.random() > 0.2)
         t.requires_grad_(rg)
         leaves.append(t)
         if rg:
             grad_leaves.append(t)
-        desc.append(f"L{i}{tuple(shape)}{'g' if rg else 'n'}")
+        desc.append(f"L{i}{tuple(shape)}{'g' if rg else 'n'}{tag}")
 
     pool = list(leaves)  # tensors usable as operands
     nodes = []
@@ -223,11 +272,13 @@ class MTLProgram:
 
 
 def build_mtl(spec: dict) -> MTLProgram:
-    """spec: {seed, n_shared, n_features, n_tasks, dtype, overlap: bool, empty_task: bool,
+    """spec: {seed, n_shared, n_features, n_tasks, dtype, overlap: bool, empty_task: bool, layouts (as in ``build``:
+    shared and task-specific parameters that are permuted / strided / expanded views),
     feat_shapes: 'any' (features of any shape of SHAPES), trunk: 'dense' | 'sparse' (sparse: every feature depends
     on a random subset of the shared parameters, so some Jacobian blocks are zero / some shared parameters may be
     unreachable)}.  Heads share no graph node besides the features; features are the only path shared -> losses."""
     rng = random.Random(spec["seed"])
+    lrng = _layout_rng(spec)
     dtype = torch.float64 if spec.get("dtype", "float64") == "float64" else torch.float32
     n_shared = spec.get("n_shared", 2)
     n_feat = spec.get("n_features", 1)
@@ -236,9 +287,12 @@ def build_mtl(spec: dict) -> MTLProgram:
     shared = []
     for i in range(n_shared):
         sh = rng.choice(SHAPES)
-        t = _rand_tensor(rng, sh, dtype).requires_grad_(True)
+        t, tag = _rand_tensor(rng, sh, dtype), ""
+        if lrng is not None:
+            t, tag = relayout(t, lrng)
+        t.requires_grad_(True)
         shared.append(t)
-        desc.append(f"S{i}{tuple(sh)}")
+        desc.append(f"S{i}{tuple(sh)}{tag}")
     const = _rand_tensor(rng, (3,), dtype)  # leaf not requiring grad
     unused = _rand_tensor(rng, (2,), dtype).requires_grad_(True)  # influences nothing
     # trunk: mix all shared params into a scalar "core" plus per-feature shapes
@@ -263,11 +317,15 @@ def build_mtl(spec: dict) -> MTLProgram:
     pool_params = []
     tasks_params, losses = [], []
     for i in range(n_tasks):
-        own = []
+        own, tags = [], []
         n_own = rng.choice([0, 1, 1, 2]) if spec.get("empty_task", True) else rng.choice([1, 2])
         for j in range(n_own):
             sh = rng.choice([(), (2,), (1, 2)])
-            p = _rand_tensor(rng, sh, dtype).requires_grad_(True)
+            p, tag = _rand_tensor(rng, sh, dtype), ""
+            if lrng is not None:
+                p, tag = relayout(p, lrng)
+            p.requires_grad_(True)
+            tags.append(tag)
             own.append(p)
             pool_params.append(p)
         if spec.get("overlap", True) and pool_params and rng.random() < 0.4:
@@ -283,7 +341,7 @@ def build_mtl(spec: dict) -> MTLProgram:
             loss = loss + (p.sum() * (j + 1.0 + i)) * fk.sum() + (p * p).sum() * 0.5
         losses.append(loss)
         tasks_params.append(own)
-        desc.append(f"T{i}:{len(own)}p,f{used_feats}")
+        desc.append(f"T{i}:{len(own)}p{''.join(tags)},f{used_feats}")
     return MTLProgram(shared, features, tasks_params, losses, [const, unused], desc)
 
 
